@@ -228,3 +228,36 @@ def busing_levy_B(cell):
     Gs = np.linalg.inv(gram(cell))
     L = np.linalg.cholesky(Gs)     # Gs = L L^T, L lower
     return L.T                     # B = L^T is upper triangular, B^T B = Gs
+
+
+# ---------------------------------------------------------------- sparse scans on disk
+
+def write_sparse_scan(path, frames, shape, omega=None, dty=None, scan="1.1"):
+    """Write the HDF5 layout ImageD11.sparseframe.SparseScan reads (as produced by the segmenter): one group per scan
+    with attributes nframes/shape0/shape1 and concatenated nnz,row,col,intensity datasets.  frames = list of
+    (row, col, intensity) arrays."""
+    import h5py, os
+    try:
+        os.remove(path)
+    except OSError:
+        pass
+    with h5py.File(path, "w") as h:
+        g = h.create_group(scan)
+        g.attrs["nframes"] = len(frames)
+        g.attrs["shape0"] = int(shape[0])
+        g.attrs["shape1"] = int(shape[1])
+        g["nnz"] = np.array([len(f[0]) for f in frames], np.uint32)
+        cat = lambda k, dt: np.concatenate([np.asarray(f[k]) for f in frames]).astype(dt) if frames else np.zeros(0, dt)
+        g["row"] = cat(0, np.uint16)
+        g["col"] = cat(1, np.uint16)
+        g["intensity"] = cat(2, np.float32)
+        if omega is not None:
+            g["measurement/rot_center"] = np.asarray(omega, float)
+        if dty is not None:
+            g["measurement/dty_center"] = np.asarray(dty, float)
+    return path
+
+
+def read_sparse_scan(path, scan="1.1", **kw):
+    from ImageD11 import sparseframe
+    return sparseframe.SparseScan(path, scan, **kw)
